@@ -1,8 +1,16 @@
 ---------------------------- MODULE KalmanExact ----------------------------
-(* Textbook constant-velocity Kalman filter for ONE dimension in exact       *)
-(* rationals <<num, den>> (den > 0, normalised).  State: mean (p, v), cov    *)
-(* (pp, pv, vv).  Noise: Q = diag(qp, qv), R = r, P0 = diag(4 qp', ...)      *)
-EXTENDS Integers, Sequences, TLC, Json
+(* Property C07, exact recurrence.  Textbook constant-velocity Kalman filter   *)
+(* for ONE coordinate in exact rationals <<num, den>> (den > 0, lowest terms). *)
+(* State: mean (p, v), covariance (pp, pv, vv).  dt = 1.                       *)
+(*   F = [1 1; 0 1],  H = [1 0],  Q = diag(SigP2, SigV2),  R = SigP2,          *)
+(*   P0 = diag(4 SigP2, 100 SigV2)                                             *)
+(* which is the library's noise model for a coordinate whose standard          *)
+(* deviations are sigma_p = w_p * h and sigma_v = w_v * h (box filter: h = box *)
+(* height; point filters: h = 1): initial std 2 sigma_p and 10 sigma_v,        *)
+(* process and measurement std sigma_p resp. sigma_v.                          *)
+(* Parameters are dyadic so that two predict/update cycles fit TLC's 32-bit    *)
+(* integers: h = 20, w_p = 1/20, w_v = 1/40 (the default 1/160 overflows).     *)
+EXTENDS Integers, Sequences
 RECURSIVE Gcd(_, _)
 Gcd(a, b) == IF b = 0 THEN a ELSE Gcd(b, a % b)
 Abs(x) == IF x < 0 THEN -x ELSE x
@@ -16,32 +24,34 @@ Mul(x, y) == LET g1 == Gcd(Abs(x[1]), y[2])  g2 == Gcd(Abs(y[1]), x[2]) IN
                   (x[2] \div (IF g2 = 0 THEN 1 ELSE g2)) * (y[2] \div (IF g1 = 0 THEN 1 ELSE g1)))
 Inv(x) == IF x[1] > 0 THEN <<x[2], x[1]>> ELSE <<-x[2], -x[1]>>
 Div(x, y) == Mul(x, Inv(y))
+Pos(x) == x[1] > 0
 
-(* parameters: height 20, position weight 1/20, velocity weight 1/160:
-   sigma_p = 1, sigma_v = 1/8                                                *)
-SigP2 == R(1)            \* (w_p h)^2
-SigV2 == <<1, 4>>        \* (w_v h)^2 with w_v = 1/40
+Height == R(20)
+WPos == <<1, 20>>
+WVel == <<1, 40>>
+SigP2 == Mul(Mul(WPos, Height), Mul(WPos, Height))      \* (w_p h)^2 = 1
+SigV2 == Mul(Mul(WVel, Height), Mul(WVel, Height))      \* (w_v h)^2 = 1/4
 Initiate(z) == [p |-> R(z), v |-> R(0), pp |-> Mul(R(4), SigP2), pv |-> R(0), vv |-> Mul(R(100), SigV2)]
+(* m' = F m,  P' = F P F^T + Q *)
 Predict(s) == [p  |-> Add(s.p, s.v), v |-> s.v,
                pp |-> Add(Add(Add(s.pp, Mul(R(2), s.pv)), s.vv), SigP2),
                pv |-> Add(s.pv, s.vv),
                vv |-> Add(s.vv, SigV2)]
-S(s) == Add(s.pp, SigP2)                              \* innovation variance
+S(s) == Add(s.pp, SigP2)                              \* innovation variance H P H^T + R
+(* K = P H^T / S,  m' = m + K (z - H m),  P' = P - K S K^T *)
 Update(s, z) == LET sv == S(s)  kp == Div(s.pp, sv)  kv == Div(s.pv, sv)  y == Sub(R(z), s.p) IN
                 [p  |-> Add(s.p, Mul(kp, y)), v |-> Add(s.v, Mul(kv, y)),
-                 pp |-> Mul(kp, SigP2),                 \* = pp - pp^2/S  because S = pp + R
-                 pv |-> Mul(kv, SigP2),
+                 pp |-> Sub(s.pp, Mul(kp, s.pp)),
+                 pv |-> Sub(s.pv, Mul(kp, s.pv)),
                  vv |-> Sub(s.vv, Mul(kv, s.pv))]
+(* squared Mahalanobis distance of a measurement from the projected state *)
 Dist2(s, z) == LET y == Sub(R(z), s.p) IN Div(Mul(y, y), S(s))
-SPD(s) == s.pp[1] > 0 /\ Sub(Mul(s.pp, s.vv), Mul(s.pv, s.pv))[1] > 0
+(* symmetric by construction (pv stored once); positive-definite: leading minors *)
+SPD(s) == Pos(s.pp) /\ Pos(Sub(Mul(s.pp, s.vv), Mul(s.pv, s.pv)))
 
 Run(z0, z1, z2, z3) ==
   LET s0 == Initiate(z0)  s1 == Predict(s0)  s2 == Update(s1, z1)
       s3 == Predict(s2)   s4 == Update(s3, z2)  s5 == Predict(s4)
-  IN [s2 |-> s2, s4 |-> s4, s5 |-> s5, d |-> Dist2(s5, z3), spd |-> SPD(s2) /\ SPD(s4) /\ SPD(s5)]
-ASSUME PrintT(Run(100, 102, 105, 107))
-ASSUME PrintT(Run(-10, -13, -13, -20))
-VARIABLE x
-Init == x = 0
-Next == x' = x
+  IN [s1 |-> s1, s2 |-> s2, s3 |-> s3, s4 |-> s4, s5 |-> s5, d |-> Dist2(s5, z3),
+      spd |-> IF SPD(s0) /\ SPD(s1) /\ SPD(s2) /\ SPD(s3) /\ SPD(s4) /\ SPD(s5) THEN 1 ELSE 0]
 =============================================================================
